@@ -455,7 +455,15 @@ class Engine:
         if isinstance(stmt, ast.Assert):
             # `assert isinstance(..)  # for mypy` lines: kept as obligations (they do run)
             g = self.ev_cond(stmt.test, st)
-            if self.c.get('lenient') and not st.spec:
+            if st.spec:
+                # an assert of the CONTRACT (ghost code anchored at a program statement): a proof obligation at that statement
+                anchor = getattr(self, '_ghost_anchor', None) or stmt
+                st.spec = False
+                try:
+                    self.oblige(st, g, f'ghost-assert@L{anchor.lineno}', 'assert', anchor, note=ast.unparse(stmt.test))
+                finally:
+                    st.spec = True
+            elif self.c.get('lenient') and not st.spec:
                 # lenient contract: an assert of the program is an exit (AssertionError) these contracts do not speak about; past it the condition holds
                 self.lenient_skips.append((stmt.lineno, 'program assert assumed past this point (AssertionError exit not covered)'))
             else:
@@ -528,10 +536,12 @@ class Engine:
                         for gsrc in src:
                             for g in ast.parse(gsrc).body:
                                 s_out.spec = True
+                                self._ghost_anchor = stmt
                                 try:
                                     self._exec_stmt(s_out, g)
                                 finally:
                                     s_out.spec = False
+                                    self._ghost_anchor = None
 
     def do_if(self, st, stmt):
         free_ = ast.unparse(stmt.test) in self.c.get('free_conditions', ())
